@@ -265,8 +265,18 @@ def run(ctx, rep):
     dr = R.recs(ENTRY) or []
     names = [(o["call"].split("::")[-1], atoms(o["guard"]), len(o["guard"])) for o in dr if "call" in o]
     rdc = [x for x in names if x[0] == "do_rdh_checks"]
-    pay = [o for o in dr if "call" in o and o["call"].endswith("do_payload_checks")]
-    okp = len(pay) == 1 and any("isSome(" in g and "target" in g for g in pay[0]["guard"]) and any("is_empty" in g for g in pay[0]["guard"])
+    # the per-word step of the ITS target, looked for through the link validator's own helper methods
+    ITS_STEP = "fastpasta::analyze::validators::its::lib::do_payload_checks"
+    ev.watch = lambda c: c == ITS_STEP
+    try:
+        nargs = f.fns[ENTRY]["mir"]["argc"]
+        dr2 = ev.collect_ifs(ENTRY, [Sym("a%d" % i) for i in range(nargs)], follow=lambda c: c.startswith(LV) and c != ENTRY and not c.endswith("do_rdh_checks"))
+    except Unsupported:
+        dr2 = []
+    finally:
+        ev.watch = None
+    pay = [o for o in dr2 if "call" in o and o["call"] == ITS_STEP]
+    okp = len(pay) == 1 and any(("isSome(" in g and "target" in g) and not g.startswith("not ") for g in pay[0]["guard"]) and any("is_empty" in g for g in pay[0]["guard"])
     rep.check(len(rdc) == 1 and rdc[0][2] == 0 and okp, "R2.2", "R2.2|entry", "every packet gets the RDH step; non-empty payloads of an ITS target get the per-word step", ENTRY,
               "do_checks: RDH step %s payload step guards %s" % (rdc, [o["guard"] for o in pay]))
     # the padding limit (no code): measured unconditionally for every payload that reaches the per-word step
